@@ -100,7 +100,7 @@ def build(hist):
             except Exception as ex:   # noqa
                 out.append('cycle raised %r' % (ex,))
                 break
-            out += check(cell, before, states)
+            out += [e for e in check(cell, before, states) if os.environ.get('VERIF_ONLY', '') in e]
             if out:
                 break
     return cell, out
